@@ -83,6 +83,25 @@ fn main() {
                 }
             }
         }
+        "debug-wit" => {
+            // worker debug-wit --replay-input f.json   {"libs": ["..."], "world": "package test:a; world w {...}"}
+            let v = ctx.replay_input.clone().expect("input");
+            let libs: Vec<(String, String)> = v["libs"].as_array().unwrap().iter().enumerate().map(|(i, t)| (format!("lib{i}"), t.as_str().unwrap().to_string())).collect();
+            let bytes = witgen::build_component(&libs, v["world"].as_str().unwrap(), "w").expect("component");
+            let mut g = wac_graph::CompositionGraph::new();
+            let p = wac_types::Package::from_bytes("test:a", None, bytes.clone(), g.types_mut()).unwrap();
+            let id = g.register_package(p).unwrap();
+            g.instantiate(id);
+            let r = util::catch(|| g.encode(wac_graph::EncodeOptions { define_components: false, validate: false, processor: None }));
+            match r {
+                Ok(Ok(b)) => println!("validate: {:?}", decode::validate(&b)),
+                Ok(Err(e)) => println!("encode error: {e}"),
+                Err(p) => println!("PANIC {p}"),
+            }
+            if std::env::var("DUMP_COMPS").is_ok() {
+                println!("{}", wasmprinter::print_bytes(&bytes).unwrap());
+            }
+        }
         "debug-parse" => {
             // worker debug-parse --replay-input file.json  (json string = source text)
             let src = ctx.replay_input.as_ref().and_then(|v| v.as_str()).expect("json string").to_string();
